@@ -157,6 +157,8 @@ def run(chk):
                         chk.violation("oracle", why, history=h[:npre] + [e])
                 else:
                     chk.traces += 1
+        if br.coq_ok:
+            lproxy.correspondence(chk, hs, traces)
         chk.samples = [{"request": hs[0][3]}]
     return chk.finish(level="proof", level_note=LEVEL_NOTE)
 
